@@ -170,6 +170,11 @@ def line(op):
                           "-" if endpos is None else str(endpos)])
     if k == "FITS":
         return "\t".join(["FITS", w(op[1]), w(op[2])])
+    if k == "RESIST":
+        from moclo.registry._utils import _ANTIBIOTICS
+        table = enc_list(",", ["{}:{}".format(str_code(a), str_code(b)) for a, b in _ANTIBIOTICS.items()])
+        feats = enc_list("|", [enc_list(",", [str_code(l) for l in labels]) for labels in op[1]])
+        return "\t".join(["RESIST", table, feats])
     if k in ("ROT", "ROTL"):
         _, word, kk, feats, track = op
         return "\t".join([k, w(word), str(kk), enc_feats(feats), enc_list(",", track)])
@@ -208,6 +213,11 @@ def search_target(word, kind):
     if kind == "circrec":
         return CircularRecord(Seq(word), id="x")
     raise ValueError(kind)
+
+
+def str_code(s):
+    """a string as one natural number (UTF-8 bytes behind a leading 0x01), as in the regenerated tables"""
+    return str(int.from_bytes(b"\x01" + s.encode("utf-8"), "big"))
 
 
 _fit_rx = {}
@@ -276,6 +286,17 @@ def run(op):
         return "\t".join(["some", enc_list(",", marks)] + [w(as_str(m.group(i))) for i in range(ng + 1)])
     if k == "FITS":
         return str(count_fits(op[1], op[2]))
+    if k == "RESIST":
+        from Bio.SeqFeature import SeqFeature, SimpleLocation
+        from moclo.registry._utils import find_resistance
+        rec = SeqRecord(Seq("ACGTACGTAC"), id="res")
+        for i, labels in enumerate(op[1]):
+            q = {"label": list(labels)} if labels else {}
+            rec.features.append(SeqFeature(SimpleLocation(0, 5, 1), type="CDS", qualifiers=q))
+        try:
+            return "ok:" + str_code(find_resistance(rec))
+        except RuntimeError as e:
+            return "multiple" if "multiple" in str(e) else "notfound"
     if k in ("ROT", "ROTL"):
         _, word, kk, feats, track = op
         rec = mk_record(CRec(0, word, feats, []), track=track)
